@@ -60,9 +60,9 @@ PROPS = {
                     'kinds x {init, next, ma_period, ma_type, from_str}. It does not decide the numeric formulas.'),
     ),
     'C07': dict(
-        rules=[r_counters.s08_monotone_counters],
+        rules=[r_counters.s08_monotone_counters, r_counters.s08b_bounded_panicking_counters],
         feature_sets=_sets(['default']),
-        explanation=('Decides the sentence "nothing changes when an internal position counter reaches the capacity of PeriodType": every '
+        explanation=('(S08b) a narrow (<= 16 bit) state counter incremented with panicking arithmetic must have a comparison-guarded reset. Decides the sentence "nothing changes when an internal position counter reaches the capacity of PeriodType": every '
                      'integer field of every Method / IndicatorInstance / Window is classified from the def-use trees of its writes in the '
                      'step function (increment by a positive constant via +, +=, saturating/wrapping/checked add; reset; gated increment; '
                      'other). A field that is only ever incremented and is narrower than 64 bits is a violation.'),
@@ -113,7 +113,7 @@ PROPS = {
                     'identity, dyn->static forwarding. Structural and complete over the impl table; no execution.'),
     ),
     'C13': dict(
-        rules=[r_serde.s17_serde_coverage, r_serde.s02_manual_serde_tables, r_serde.s10_state_purity,
+        rules=[r_serde.s17_serde_coverage, r_serde.s02_manual_serde_tables, r_serde.s10_state_purity, r_window.s03_sibling_constructors,
                lambda ctx: r_absint.a01_constructors(ctx, groups=('deserialize',), rule_id='A01d', min_entries=2,
                    title='hand-written Deserialize impls (Window, SMM): with the deserialised helper struct unconstrained (any buffer length, any index) no assertion of from_parts and no other panic is reachable: bad data leaves through Err')],
         feature_sets=_sets(['default']),
@@ -123,7 +123,7 @@ PROPS = {
                      'write exactly the field names their Deserialize helper structs read, each from the same-named field; (S10) state '
                      'is plain data, so behaviour is a function of the restored fields.'),
         not_decided=['that the chosen format round-trips every f64/integer bit-exactly (a property of the format crate)',
-                     'that the derived (recomputed) state of hand-written Deserialize impls equals what the constructors compute (rule S03 when armed)',
+                     'S03 compares the recomputed fields as expressions of the window length; the sortedness of SMM.slice is checked only as "a sort call precedes Ok"',
                      'behavioural equality of restored instances is inferred from field-completeness, not observed'],
         assumptions=TRUST + ['serde derive implements the documented field-wise behaviour'],
         technique='static analysis: impl-table coverage query, AST attribute scan, writer/reader field-table agreement on MIR',
@@ -173,7 +173,7 @@ PROPS = {
     'C10': dict(
         rules=[r_init.s12_validate_dominates_init,
                lambda ctx: r_absint.a01_constructors(ctx, groups=('method-new', 'ma-init', 'config-init', 'config-validate', 'config-set', 'parser'), min_entries=165),
-               r_absint.a01c_too_small, r_absint.a02_next_with_facts],
+               r_absint.a01c_too_small, r_absint.a02_next_with_facts, r_counters.s08b_bounded_panicking_counters],
         feature_sets=_sets(['default']),
         explanation=('(S12) in every IndicatorConfig::init (37), each construction of Ok(instance) is dominated by the true branch of a '
                      'test on self.validate(), the false branch reaches no Ok, and the configuration is not written afterwards: init '
@@ -183,7 +183,8 @@ PROPS = {
                      'division check, assert!/debug_assert!/panic!/unwrap reachable from them is refuted, or reported. (A01c) with a length '
                      'pinned to a value its doc comment calls too small the abstract return is exactly {Err}. (A02) next() is interpreted '
                      'from the joined Ok-state of init()/new() with all non-invariant fields forgotten: no empty-window push, window index '
-                     'out of range or overflow in pure configuration arithmetic is reachable.'),
+                     'out of range or overflow in pure configuration arithmetic is reachable. (S08b) narrow state counters incremented with '
+                     'overflow-checked arithmetic in next() are clamped by a comparison-guarded reset (else a long stream panics).'),
         not_decided=['panics in next() that depend on stream values or accumulated state (listed in the evidence under '
                      'next_panic_sites_not_decided: ring-buffer bounds checks, age counters, float assertions on inputs): they need loop / '
                      'float / representation invariants and are not decided',
@@ -233,7 +234,8 @@ PROPS = {
                     'enumerated and each is classified. Numeric equalities for long windows / f32 are not claimed.'),
     ),
     'C01': dict(
-        rules=[r_window.s01_iterator_discipline, lambda ctx: r_serde.s02_manual_serde_tables(ctx, only=('Window',)),
+        rules=[r_window.s01_iterator_discipline, r_window.s01c_single_slot_mapping, r_window.s03_sibling_constructors,
+               lambda ctx: r_serde.s02_manual_serde_tables(ctx, only=('Window',)),
                lambda ctx: r_absint.a01_constructors(ctx, groups=('window-ctor', 'deserialize'), labels=('Window',), rule_id='A01w', min_entries=6,
                    title='Window::{new, from_parts, empty, From<Vec>, From<Box<[T]>>} and Window::deserialize: every reachable panic is one the constructor documents (# Panics); deserialize reaches none')],
         feature_sets=_sets(['default']),
@@ -241,10 +243,13 @@ PROPS = {
                      'a yielded item decrements r exactly once by 1 and is preceded by the test r != 0, None is returned exactly under r == 0 '
                      'without touching r; every other Option-returning override (last) looks at r before yielding; count returns r. '
                      'Hence the number of items still to come equals size_hint at every split point and an exhausted or empty iterator '
-                     'never yields. (S02) Window\'s hand-written Serialize/Deserialize agree on the field table (buf, index).'),
+                     'never yields. (S01c) get and Index::index obtain their slot from the one mapping slice_index(own index). (S03) new / from_parts / '
+                     'empty agree on the derived fields: s_1 = size.saturating_sub(1), buffer length = size. (S02) Window\'s hand-written '
+                     'Serialize/Deserialize agree on the field table (buf, index). (A01w) the constructors reach only documented panics and '
+                     'deserialize none.'),
         not_decided=['that push / slice_index / newest / the iterator cursor arithmetic select the right slot for every rotation phase '
                      '(modular arithmetic on runtime values; needs a solver or model checker): not decided',
-                     'agreement of the three constructors on derived fields (rule S03) when armed'],
+                     'S01c is a sibling-agreement rule: a correct re-implementation of the index->slot mapping outside slice_index would be reported'],
         assumptions=TRUST,
         technique='static analysis: per-path remaining-count discipline on MIR (typestate-like), writer/reader table agreement',
         level_text='Iterator exhaustion/count clauses and serde table agreement decided exactly; slot arithmetic explicitly not.',
